@@ -23,7 +23,7 @@ def models(tier, seed):
 
 def required_tags(tier):
     return ['states:1', 'states:2', 'sources:2', 'w=0', 'k:capacitor', 'k:inductance', 'k:dc_current_source', 'k:dc_voltage_source', 'scheme:Is<L<Vs', 'scheme:other',
-            'inductors>=2', 'wrapper', 'nodal', 'reanalysed_with_other_values']
+            'inductors>=2', 'wrapper', 'nodal', 'reanalysed_with_other_values', 'small_capacitances']
 
 
 def transfer(A, B, C, D, w):
@@ -136,6 +136,9 @@ def replay(case, ctx):
         variants = [(0, 0, (0, 0, 0)), ((h % (N_SCHEMES - 1)) + 1, 0, UNITS3[(h >> 8) % len(UNITS3)])]
         # the same circuit again, same names, other capacitances / inductances (frequency unit): an analysis must not remember the previous one
         variants.append((0, 0, (0, 0, [1, -1, 2][h % 3])))
+        # realistic decades (kOhm - nF - MHz, ...): capacitances and inductances far below 1, entries of A over many decades
+        if ctx.get('tier') == 'thorough' or h % 2 == 0:
+            variants.append((((h >> 5) % N_SCHEMES), 0, [(3, 0, 6), (2, -3, 5), (0, 3, 8), (6, 0, 2)][(h >> 9) % 4]))
         if ctx.get('tier') == 'thorough':
             variants.append((((h >> 3) % (N_SCHEMES - 1)) + 1, 0, UNITS3[(h >> 11) % len(UNITS3)]))
     for scheme, turns, units in variants:
@@ -143,6 +146,8 @@ def replay(case, ctx):
         tg.add('scheme:Is<L<Vs' if scheme_is_default_order(scheme) else 'scheme:other')
         if scheme == 0 and units != (0, 0, 0):
             tg.add('reanalysed_with_other_values')
+        if units[2] >= 5:
+            tg.add('small_capacitances')
         ctxs = f'scheme={scheme} units={units}'
         b = build_models(case, scheme, turns, units, r.mismatches, ctxs)
         if b is None:
